@@ -103,12 +103,24 @@ class Run(object):
     def op_open(self, mode):
         if len(self.libs) >= 3:
             return
-        if mode == 'inline':
+        if mode.startswith('inline'):
             ffi = self.check.cffi.FFI()
             ffi.cdef(CDEF)
         else:
             ffi = self.check.mod.ffi
-        lib = ffi.dlopen(self.check.libpath)
+        if mode.endswith('_handle'):
+            # a library object made from an already-opened handle: no automatic dlclose, but an
+            # explicit ffi.dlclose() closes it like any other.  The harness opens the handle itself
+            # (that dlopen does not go through the backend) and accounts for it.
+            import _ctypes
+            h = _ctypes.dlopen(self.check.libpath, 2)       # RTLD_NOW
+            self.handles[h] = self.handles.get(h, 0) + 1
+            if h not in self.hord:
+                self.hord[h] = len(self.hord)
+            lib = ffi.dlopen(ffi.cast('void *', h))
+            self.out.probe('library_made_from_a_handle')
+        else:
+            lib = ffi.dlopen(self.check.libpath)
         self.libs.append(Lib(mode, ffi, lib))
         if len([l for l in self.libs if not l.closed]) > 1:
             self.out.probe('two_open_libs_on_same_file')
@@ -375,13 +387,14 @@ class C37(core.Check):
         self.v_dl_log = (DlEv * 4096).in_dll(self.shim, 'cffi_verif_dl_log')
 
     def generate(self, rng, idx, tier):
-        ops = [['open', rng.choice(['inline', 'module'])]]
+        modes = ['inline', 'inline', 'module', 'module', 'inline_handle', 'module_handle']
+        ops = [['open', rng.choice(modes)]]
         for _ in range(rng.randint(3, 30)):
             n = rng.weighted([('open', 4), ('func', 22), ('readvar', 18), ('writevar', 12), ('addressof', 6),
                               ('const', 4), ('dir', 2), ('close', 12), ('droplib', 3), ('collect', 2)])
             k = rng.below(1000)
             if n == 'open':
-                ops.append(['open', rng.choice(['inline', 'module'])])
+                ops.append(['open', rng.choice(modes)])
             elif n == 'func':
                 ops.append(['func', k, rng.choice(FUNCS), rng.randint(-50, 50), rng.randint(-50, 50), rng.chance(0.7)])
             elif n == 'readvar':
